@@ -110,7 +110,15 @@ func c13Case(ch choose.Chooser, rec *ev.Recorder, cfg walkCfg) error {
 				r.trace = append(r.trace, doAction(ch, r, 5))
 			}
 		}
-		// restart: a new instance on the same file (or a fresh one after the loss)
+		// restart: a new instance on the same file (or a fresh one after the loss); the operator may have changed the
+		// configuration in the meantime (retry policy, size limit, last L2 block, require-one-bridge)
+		if ch.Int(0, 3, "operatorChangesConfigBeforeRestart") == 0 {
+			nc := genNodeCfg(ch)
+			nc.Key = cfg.node.Key
+			cfg.node = nc
+			r.trace = append(r.trace, fmt.Sprintf("CFG%+v", nc))
+			rec.Class("restarts_with_a_changed_configuration")
+		}
 		preViol := len(r.m.violations)
 		node, err := newASNode(r.w, r.grpc, r.storageDir, cfg.node)
 		if err != nil {
